@@ -32,6 +32,10 @@ type sliceV struct {
 
 type structV []value
 type arrayV []value
+
+// byteArrayV is a [N]byte (or [N]uint8-based) array value; it shares the cell
+// vector representation with byte slices so that arr[:] aliases the array.
+type byteArrayV struct{ a *byteArr }
 type tuple []value
 
 type iface struct {
@@ -201,6 +205,13 @@ func zero(t types.Type) value {
 		}
 		return s
 	case *types.Array:
+		if isByteElem(u.Elem()) {
+			ba := &byteArr{b: make([]*Term, u.Len())}
+			for i := range ba.b {
+				ba.b[i] = BV(8, 0)
+			}
+			return byteArrayV{ba}
+		}
 		a := make(arrayV, u.Len())
 		for i := range a {
 			a[i] = zero(u.Elem())
@@ -230,6 +241,8 @@ func copyVal(v value) value {
 			c[i] = copyVal(f)
 		}
 		return c
+	case byteArrayV:
+		return byteArrayV{&byteArr{b: append([]*Term(nil), v.a.b...)}}
 	}
 	return v
 }
